@@ -44,18 +44,29 @@ struct WebSocketFrame
   std::uint8_t maskKey[4] = {0, 0, 0, 0};
   std::vector<std::uint8_t> payload;
 
-  /// \brief Parse a frame from raw bytes.
-  /// Returns nullopt if the buffer is incomplete. Sets consumed to bytes used.
-  static std::optional<WebSocketFrame> parse(core::BufferView data,
-                                             std::size_t& consumed)
+  /// \brief Outcome of parsing one frame from a byte buffer.
+  enum class ParseStatus
+  {
+    Complete,      ///< a whole frame was decoded; consumed = its size
+    Incomplete,    ///< the buffer ends inside the frame: read more
+    ProtocolError, ///< the bytes can never become a valid frame (fail the connection, 1002)
+    TooBig         ///< the header declares more payload than the caller accepts (1009)
+  };
+
+  /// \brief Parse a frame from raw bytes, telling an incomplete frame apart from
+  /// one that is invalid or larger than \p maxPayload. A frame whose declared
+  /// length exceeds \p maxPayload is rejected from its header alone, so the
+  /// caller never buffers towards it.
+  static ParseStatus parse(core::BufferView data, std::size_t& consumed, WebSocketFrame& frame,
+                           std::uint64_t maxPayload)
   {
     consumed = 0;
+    frame = WebSocketFrame{};
     if (data.size() < 2)
     {
-      return std::nullopt;
+      return ParseStatus::Incomplete;
     }
 
-    WebSocketFrame frame;
     std::size_t pos = 0;
 
     // Byte 0: FIN, RSV, opcode
@@ -69,7 +80,7 @@ struct WebSocketFrame
       frame.opcode = static_cast<WsOpcode>(byte0 & 0x0F);
       frame.payload.clear();
       consumed = data.size(); // consume all to prevent re-parse
-      return frame; // caller checks RSV via the raw byte if needed
+      return ParseStatus::Complete; // caller checks RSV via the raw byte if needed
     }
     frame.opcode = static_cast<WsOpcode>(byte0 & 0x0F);
 
@@ -83,37 +94,45 @@ struct WebSocketFrame
     {
       if (payloadLen > 125 || !frame.fin)
       {
-        return std::nullopt; // protocol error — caller should close with 1002
+        return ParseStatus::ProtocolError; // caller should close with 1002
       }
     }
 
     if (payloadLen == 126)
     {
-      if (data.size() < pos + 2) return std::nullopt;
+      if (data.size() < pos + 2) return ParseStatus::Incomplete;
       payloadLen = data.readU16BE(pos);
       pos += 2;
     }
     else if (payloadLen == 127)
     {
-      if (data.size() < pos + 8) return std::nullopt;
+      if (data.size() < pos + 8) return ParseStatus::Incomplete;
       payloadLen = data.readU64BE(pos);
       pos += 8;
+      if ((payloadLen >> 63) != 0)
+      {
+        return ParseStatus::ProtocolError; // RFC 6455 §5.2: the most significant bit MUST be 0
+      }
+    }
+    if (payloadLen > maxPayload)
+    {
+      return ParseStatus::TooBig;
     }
 
     // Mask key (4 bytes if masked)
     if (frame.masked)
     {
-      if (data.size() < pos + 4) return std::nullopt;
+      if (data.size() < pos + 4) return ParseStatus::Incomplete;
       frame.maskKey[0] = data[pos++];
       frame.maskKey[1] = data[pos++];
       frame.maskKey[2] = data[pos++];
       frame.maskKey[3] = data[pos++];
     }
 
-    // Payload
-    if (data.size() < pos + payloadLen)
+    // Payload (subtraction-based bound: pos + payloadLen could overflow)
+    if (payloadLen > data.size() - pos)
     {
-      return std::nullopt; // incomplete
+      return ParseStatus::Incomplete;
     }
 
     frame.payload.resize(static_cast<std::size_t>(payloadLen));
@@ -133,6 +152,21 @@ struct WebSocketFrame
 
     pos += static_cast<std::size_t>(payloadLen);
     consumed = pos;
+    return ParseStatus::Complete;
+  }
+
+  /// \brief Parse a frame from raw bytes.
+  /// Returns nullopt if the buffer is incomplete (or the frame is invalid - use
+  /// the ParseStatus overload to tell the two apart). Sets consumed to bytes used.
+  static std::optional<WebSocketFrame> parse(core::BufferView data,
+                                             std::size_t& consumed)
+  {
+    WebSocketFrame frame;
+    if (parse(data, consumed, frame, ~static_cast<std::uint64_t>(0) >> 1) != ParseStatus::Complete)
+    {
+      consumed = 0;
+      return std::nullopt;
+    }
     return frame;
   }
 
